@@ -346,3 +346,141 @@ def for_range_one_arg(n: int) -> int:
     for k in range(n):
         acc = (acc * 3 + k) % 1000003
     return acc
+
+
+# ---- objects with virtual members (records of functions), lambda-returning factories ---------------------------
+
+class Scaler:
+    """an interface: the translator sees its virtual members as function-valued fields of a structure"""
+
+    def scale(self, x: int) -> int:
+        raise NotImplementedError
+
+    def check(self, value: int, limit: int) -> int:
+        raise NotImplementedError
+
+
+class LinearScaler(Scaler):
+    """the implementation the self-test passes in (Lean side: the record ⟨fun x => m*x+1, fun v l => ckv v (-l) l⟩)"""
+
+    def __init__(self, m: int) -> None:
+        self.__m = m
+
+    def scale(self, x: int) -> int:
+        return self.__m * x + 1
+
+    def check(self, value: int, limit: int) -> int:
+        return _ckv(value, -limit, limit)
+
+
+class Holder:
+    def __init__(self, scaler: Scaler, bias: int) -> None:
+        self.__scaler = scaler
+        self.__bias = bias
+
+    @property
+    def scaler(self) -> Scaler:
+        return self.__scaler
+
+    @property
+    def bias(self) -> int:
+        return self.__bias
+
+
+def _not_null(argument: Holder | None, name: str) -> Holder:
+    if argument is None:
+        raise TypeError(name)
+    return argument
+
+
+def use_object(h: Holder, x: int) -> int:
+    _not_null(h, "h")
+    s = h.scaler
+    a = s.scale(x)
+    if a > 100:
+        return s.check(limit=1000, value=a) - h.bias
+    return a * 2 + h.scaler.check(x, limit=h.bias)
+
+
+def make_adjuster(k: int):
+    if k < -50:
+        raise ValueError("k")
+    return lambda v, n: v if v.x == k else v + Vec._ctor(x=k * n, y=_ckv(n, -100, 100))
+
+
+# ---- optional results, `in`, len(), & and |, raising calls under and / or / chained comparisons ----------------
+
+class Span:
+    def __init__(self, lo: int, hi: int) -> None:
+        if hi < lo:
+            raise ValueError("empty")
+        self.__lo = lo
+        self.__hi = hi
+
+    @classmethod
+    def _ctor(cls, *, lo: int, hi: int) -> Span:
+        self = super().__new__(cls)
+        self.__lo = lo
+        self.__hi = hi
+        return self
+
+    def __contains__(self, item: int | Span) -> bool:
+        if isinstance(item, int):
+            return _ckv(self.__lo, -600, 600) <= item <= _ovf(self.__hi)
+        if isinstance(item, Span):
+            return self.__lo <= item.__lo and _ovf(item.__hi) <= self.__hi
+        raise TypeError
+
+    def __len__(self) -> int:
+        return self.__hi - self.__lo + 1
+
+    def __and__(self, other: Span) -> Span | None:
+        if other in self:
+            return other
+        if self.__hi < other.__lo or other.__hi < self.__lo:
+            return None
+        return Span(max(self.__lo, other.__lo), min(self.__hi, other.__hi))
+
+    def __or__(self, other: Span) -> Span | None:
+        if len(self) + len(other) > 150:
+            return None
+        if self.__lo not in other and other.__lo not in self:
+            return None
+        return Span._ctor(lo=min(self.__lo, other.__lo), hi=max(self.__hi, other.__hi))
+
+    def meet(self, other: Span) -> Span | None:
+        return self & other
+
+    def join(self, other: Span) -> Span | None:
+        return self | other
+
+
+def or_with_raise(a: int, b: int) -> bool:
+    return a > 5 or _ovf(a * 300) > b or a == b
+
+
+def and_assigned(a: int, b: int) -> int:
+    flag = a > 0 and _ckv(b, -5, 5) == b and a != 7
+    return 1 if flag else 0
+
+
+def optional_int(a: int) -> int | None:
+    if a < 0:
+        return None
+    if a > 500:
+        return _ovf(a)
+    return a * 2
+
+
+def none_passed(start: int | None = 3, end: int | None = 4) -> int:
+    if start is None:
+        start = -1000
+    if end is None:
+        end = 1000
+    if end < start:
+        raise ValueError("order")
+    return end - start
+
+
+def tags(x: int, y: int, z: int) -> bool:
+    return x == y and y != z
